@@ -2,8 +2,9 @@
 //
 //	cd /verif/c01 && go run ./gen
 //
-// writes zz_*.go next to main.go. The generated files are committed; the check itself needs no
-// generation step.
+// writes the zz_*.go files of the harness packages h<pkg>/ below /verif/c01 (one template per
+// family, every arity 2..9). The generated files are kept in the tree; the check itself needs
+// no generation step. Regenerate after changing a template in gen/*_tmpl.go.
 package main
 
 import (
@@ -31,7 +32,7 @@ func (p pkgT) M(t string) string { return fmt.Sprintf(p.Mfmt, t) }
 var pkgs = []pkgT{
 	{P: "option", U: "Option", X: "", Mfmt: "fp.Option[%s]", Builders: true, ApM: "ApOption"},
 	{P: "try", U: "Try", X: "", Mfmt: "fp.Try[%s]", Builders: true, ApM: "ApTry", IsTry: true},
-	{P: "either", U: "Either", X: "[lft]", Mfmt: "fp.Either[lft, %s]"},
+	{P: "either", U: "Either", X: "[Lft]", Mfmt: "fp.Either[Lft, %s]"},
 	{P: "statet", U: "Statet", X: "[int]", Mfmt: "fp.StateT[int, %s]"},
 }
 
@@ -125,7 +126,7 @@ func applT(pkg string, n, appliedN int) string {
 
 var funcs = template.FuncMap{
 	"seq": seq, "list": list, "decl": decl, "curriedT": curriedT, "curriedLit": curriedLit,
-	"applied": applied, "remArity": func(n, j int) int { return n - j + 1 }, "idx": idx, "add": add, "hcons": hcons, "chainT": chainT, "applT": applT,
+	"applied": applied, "remArity": func(n, j int) int { return n - j + 1 }, "idx": idx, "add": add, "hcons": hcons, "chainT": chainT, "applT": applT, "ints": ints,
 }
 
 func emit(name, tmpl string, data any) {
@@ -154,11 +155,12 @@ func main() {
 		dir = os.Args[1]
 	}
 	for _, p := range pkgs {
-		emit(filepath.Join(dir, "zz_"+p.P+".go"), monadTmpl, p)
+		emit(filepath.Join(dir, "h"+p.P, "zz_"+p.P+".go"), monadTmpl, p)
 		if p.Builders {
-			emit(filepath.Join(dir, "zz_"+p.P+"_builders.go"), builderTmpl, p)
+			emit(filepath.Join(dir, "h"+p.P, "zz_"+p.P+"_builders.go"), builderTmpl, p)
 		}
 	}
-	emit(filepath.Join(dir, "zz_iterator_arity.go"), iteratorTmpl, nil)
-	emit(filepath.Join(dir, "zz_misc_arity.go"), miscTmpl, nil)
+	emit(filepath.Join(dir, "hcoll", "zz_iterator_arity.go"), iteratorTmpl, nil)
+	emit(filepath.Join(dir, "htryx", "zz_try_misc.go"), tryMiscTmpl, nil)
+	emit(filepath.Join(dir, "hsmall", "zz_lazy_arity.go"), lazyTmpl, nil)
 }
